@@ -179,7 +179,8 @@ Section Correct.
     i_pred : forall x d, dget s x = Some d -> x <> start ->
         exists u du, zget (pred s) x = Some u /\ dget s u = Some du /\ d = du + w u x /\ In x (nbrs u)
                      /\ In u ord /\ (In x ord -> before ord u x);
-    i_qinv : qinv (que s)
+    i_qinv : qinv (que s);
+    i_predfin : forall x u, zget (pred s) x = Some u -> exists d, dget s x = Some d
   }.
 
   Lemma inv_weaken (E E' : Z -> Z -> Prop) s ord :
@@ -268,6 +269,10 @@ Section Correct.
                 exists u, du. rewrite zget_set_other by congruence. rewrite Oth by (apply OrdNe; exact P5).
                 repeat split; auto.
           -- apply (pq_push_inv _ _ _ _ _ _ PQ). exact Hq.
+          -- intros x u0 Hx. destruct (Z.eq_dec x nv) as [->|Ne].
+             ++ rewrite zget_set_same. eauto.
+             ++ rewrite zget_set_other in Hx by congruence. rewrite Oth by exact Ne.
+                eapply (i_predfin _ _ _ I); eauto.
         * rewrite Oth by congruence. exact Hv.
         * cbn [que]. rewrite (push_len _ _ _ Hq). lia.
       + (* no improvement: push (nv, distance[nv]) again *)
@@ -373,6 +378,7 @@ Section Correct.
       + exists [], ord. split; [reflexivity | exact P5].
       + destruct (P6 Hin) as [l1 [l2 [E1 E2]]]. exists (v :: l1), l2. split; [rewrite E1; reflexivity | exact E2].
     - exact Hq'.
+    - apply (i_predfin _ _ _ I).
   Qed.
 
   (* ---------------------------------------------------------------- fuel *)
@@ -464,6 +470,7 @@ Section Correct.
     - intros x k H. apply C in H. inversion H; subst. exists 0. split; [apply zget_set_same | lia].
     - intros x d H Hn. apply D in H. destruct H as [-> _]. congruence.
     - apply (pq_push_inv _ _ _ _ _ _ PQ). apply (pq_empty_inv _ _ _ _ _ _ PQ).
+    - intros x u H. rewrite zget_empty in H. discriminate.
   Qed.
 
   (* ---------------------------------------------------------------- the state Dijkstra ends in *)
@@ -499,6 +506,16 @@ Section Correct.
     - exists 0. apply (i_start _ _ _ (proj1 F)).
     - destruct IH as [dy Hdy]. pose proof (final_all_visited _ _ _ _ F Hdy) as Hin.
       destruct (i_edge _ _ _ (proj1 F) y y' Hin Hy' Logic.I dy Hdy) as [dy' [H _]]. eauto.
+  Qed.
+
+  (* a vertex without a finite distance has no predecessor: its back-tracking answers the empty path *)
+  Lemma final_unreached s ord t fuel : final s ord -> dget s t = None -> (0 < fuel)%nat ->
+    back fuel (pred s) start t [] = Ok [].
+  Proof.
+    intros [I _] Hd Hf. destruct fuel as [|f]; [lia|]. simpl.
+    destruct (Z.eqb_spec t start) as [->|Ne]; [rewrite (i_start _ _ _ I) in Hd; discriminate|].
+    destruct (zget (pred s) t) as [u|] eqn:P; [|reflexivity].
+    destruct (i_predfin _ _ _ I t u P) as [d Hd']. congruence.
   Qed.
 
   (* ---------------------------------------------------------------- back-tracking *)
